@@ -370,10 +370,16 @@ class CompilerPassGenerateCode(CompilerPass):
         node._ndata.add(IC10("j", [start_label]))
 
     def handle_break(self, node: nodes.Break):
-        while not isinstance(node.parent, (nodes.While, nodes.For)):
-            node = node.parent
-        end_label = node.parent._ndata.end_label
-        node._ndata.add(IC10("j", [end_label]))
+        loop_node = node
+        depth = 0
+        while not isinstance(loop_node, (nodes.While, nodes.For)):
+            loop_node = loop_node.parent
+            if isinstance(loop_node, nodes.If):
+                depth += 1
+        end_label = loop_node._ndata.end_label
+        # the jump belongs where the 'break' stands, not at the start of the enclosing
+        # statement of the loop body (it keeps that statement's indentation)
+        node._ndata.add(IC10("j", [end_label], indent=-depth))
 
     def handle_name(self, node: nodes.Name):
         # todo: detect if name is in locals/globals
